@@ -49,7 +49,12 @@ import (
 const Collector = "fee_collector"
 
 // Denoms used by the generators; "ufoo" is never registered in the token registry by default.
-var Denoms = []string{"frozen", "ubtc", "ufoo", "ukex", "xeth"}
+// Denominations are CASE SENSITIVE: IbcDenom (ibc/<upper-case hex>) and MixDenom (mixed case) are valid per
+// sdk.ValidateDenom and differ from their lower-cased spellings.  (Sorted bytewise, as sdk.Coins are.)
+const IbcDenom = "ibc/27394FB092D2ECCD"
+const MixDenom = "uMixEd"
+
+var Denoms = []string{"frozen", IbcDenom, "uMixEd", "ubtc", "ufoo", "ukex", "xeth"}
 
 type Acc struct {
 	Name string
@@ -1019,15 +1024,20 @@ func FreezeSweep(base func() *Cfg) []FreezeCase {
 	for sw := 0; sw < 4; sw++ {
 		for bl := 0; bl < 4; bl++ {
 			for wl := 0; wl < 4; wl++ {
-				for ti, tok := range []string{"ukex", "ubtc", "xeth"} {
+				for ti, tok := range []string{"ukex", "ubtc", "xeth", IbcDenom, MixDenom} {
 					c := base()
-					c.Tokens = []Tok{{"ukex", sdk.NewDec(1), true}, {"ubtc", sdk.NewDec(10), true}, {"xeth", sdk.NewDecWithPrec(1, 1), false}, {"frozen", sdk.NewDecWithPrec(1, 1), true}}
+					c.Tokens = []Tok{{"ukex", sdk.NewDec(1), true}, {"ubtc", sdk.NewDec(10), true}, {"xeth", sdk.NewDecWithPrec(1, 1), false}, {"frozen", sdk.NewDecWithPrec(1, 1), true},
+						{IbcDenom, sdk.NewDec(2), true}, {MixDenom, sdk.NewDecWithPrec(5, 1), false}}
 					c.EnBlack, c.EnWhite = sw&1 != 0, sw&2 != 0
 					c.Black, c.White = mk(bl, tok, (bl+wl)%2 == 0), mk(wl, tok, (bl+wl)%2 == 1)
 					c.Foreign = true
-					c.ViaGov = (sw+bl+wl+ti)%3 == 0
+					c.ViaGov = (sw+bl+wl+ti)%3 == 0 || tok == IbcDenom || tok == MixDenom // case-sensitive denoms always go through the proposal handlers
 					fee := sdk.NewInt64Coin("ukex", 150)
 					switch tok {
+					case IbcDenom:
+						fee = sdk.NewInt64Coin(IbcDenom, 100)
+					case MixDenom:
+						fee = sdk.NewInt64Coin(MixDenom, 400)
 					case "ubtc":
 						fee = sdk.NewInt64Coin("ubtc", 20)
 					case "xeth":
